@@ -294,3 +294,63 @@ func VerifUvlen(v uint64) int           { return uvlen(v) }
 func VerifUvLen(b []byte, p int) int    { return uvLen(b, p) }
 func VerifUvOK(b []byte, p int) bool    { return uvOK(b, p) }
 func VerifUvVal(b []byte, p int) uint64 { return uvVal(b, p) }
+
+// ---- C09: byte-array tables and the uint64-keyed hash map (bounded shapes) ----------------
+// Three items (lengths 2, 0 and 3, symbolic bytes), reserved and written out of order
+// through the real builder into an encoding.Buffer, then read back.
+func verifLemma_C09_bytearrays_roundtrip(x0, x1, y0, y1, y2 byte) {
+	b := NewByteArraysBuilder(3)
+	b.Reserve(2, 3)
+	b.Reserve(0, 1)
+	b.Reserve(1, 0)
+	b.Reserve(0, 1) // reservations for one item add up
+	var w Buffer
+	end, err := b.WriteHeader(&w, 0)
+	verifrt.Assert(err == nil, "header-written")
+	verifrt.Assert(b.WriteItem(&w, 2, []byte{y0, y1, y2}) == nil, "item-2-written")
+	verifrt.Assert(b.WriteItem(&w, 0, []byte{x0}, []byte{x1}) == nil, "item-0-written")
+	arr := NewByteArrays(w.Bytes())
+	verifrt.Assert(arr.NumItems() == 3, "items")
+	verifrt.Assert(arr.MaxItemLength() == 3, "max-item-length")
+	verifrt.Assert(arr.Length() == int(end) && arr.Length() == b.Length(), "total-length")
+	i0, i1, i2 := arr.Item(0), arr.Item(1), arr.Item(2)
+	verifrt.Assert(len(i0) == 2 && i0[0] == x0 && i0[1] == x1, "item-0")
+	verifrt.Assert(len(i1) == 0, "item-1")
+	verifrt.Assert(len(i2) == 3 && i2[0] == y0 && i2[1] == y1 && i2[2] == y2, "item-2")
+}
+
+// Four entries in a map with four buckets and two tag bits: two under ID 5 and one under
+// ID 9 (same bucket as 5), one under ID 6 (another bucket); payload bytes are symbolic.
+// The header packing for arbitrary IDs and layouts is verifLemma_C10_bucket_header.
+func verifLemma_C09_uint64map_roundtrip(p, q, r, s byte) {
+	const a, b, c = uint64(5), uint64(9), uint64(6)
+	mb := NewUint64MapBuilder(2, 2)
+	mb.Reserve(a, 1, 1)
+	mb.Reserve(b, 2, 2)
+	mb.Reserve(c, 0, 1)
+	mb.Reserve(a, 3, 0)
+	var w Buffer
+	_, err := mb.WriteHeader(&w, 0)
+	verifrt.Assert(err == nil, "header-written")
+	verifrt.Assert(mb.WriteItem(b, 2, []byte{q, r}, &w) == nil, "entry-b-written")
+	verifrt.Assert(mb.WriteItem(c, 0, []byte{s}, &w) == nil, "entry-c-written")
+	verifrt.Assert(mb.WriteItem(a, 1, []byte{p}, &w) == nil, "entry-a1-written")
+	verifrt.Assert(mb.WriteItem(a, 3, []byte{}, &w) == nil, "entry-a3-written")
+	m := NewUint64Map(w.Bytes())
+	verifrt.Assert(m.Length() == mb.Length(), "total-length")
+	ta := m.FillTagged(a, nil)
+	verifrt.Assert(len(ta) == 2, "both-entries-of-a")
+	verifrt.Assert(ta[0].Tag == 1 && len(ta[0].Data) == 1 && ta[0].Data[0] == p, "first-entry-of-a")
+	verifrt.Assert(ta[1].Tag == 3 && len(ta[1].Data) == 0, "second-entry-of-a")
+	tb := m.FillTagged(b, nil)
+	verifrt.Assert(len(tb) == 1 && tb[0].Tag == 2 && len(tb[0].Data) == 2 && tb[0].Data[0] == q && tb[0].Data[1] == r, "entry-of-b")
+	tc := m.FillTagged(c, nil)
+	verifrt.Assert(len(tc) == 1 && tc[0].Tag == 0 && len(tc[0].Data) == 1 && tc[0].Data[0] == s, "entry-of-c")
+	first, ok := m.FindFirst(a)
+	verifrt.Assert(ok && first.Tag == 1, "find-first")
+	verifrt.Assert(len(m.FindFirstWithTag(b, 2)) == 2, "find-first-with-tag")
+	verifrt.Assert(m.FindFirstWithTag(b, 1) == nil, "absent-tag")
+	_, found := m.FindFirst(13) // same bucket as 5 and 9, never written
+	verifrt.Assert(!found, "absent-id-not-found")
+	verifrt.Assert(len(m.FillTagged(2, nil)) == 0, "absent-id-in-an-empty-bucket")
+}
